@@ -57,3 +57,8 @@ Print Assumptions C07_delayed_sinusoid.
 Print Assumptions C07_gain_recovered.
 Print Assumptions C07_gain_statistics_poly.
 Print Assumptions C07_backends_agree_on_sign.
+Print Assumptions C07_delay_gives_negative_phase.
+Print Assumptions C07_segment_gain.
+Print Assumptions C07_dft_linear.
+Print Assumptions C07_gain_statistics_detrend0.
+Print Assumptions C07_gain_statistics_win.
